@@ -17,6 +17,7 @@ struct mock_cam_cfg {
     long fail_at;         /* get_frame fails when asked for this hardware id (-1: never); one-shot per start */
     int start_fails;      /* next start fails */
     int pace;             /* extra scheduling points inside get_frame */
+    int empty_every;      /* every k-th frame call of an ungated camera returns Device_Ok with *nbytes = 0: "no frame yet" (0: never) */
     int reject_sets;      /* the next so many set calls are refused by the device (Device_Err, nothing changes) */
 };
 struct mock_sto_cfg {
